@@ -435,7 +435,7 @@ func init() {
 	register(&Check{
 		ID: "C12",
 		Expl: "Decides the structural conditions of graceful-restart handling: (E6.graceful-reasons) exactly the RFC 4724/8538 loss reasons are rewritten to graceful restart (finite-domain evaluation over all reason types), only under negotiated GR, a received NOTIFICATION only with the negotiated N bit, and the restart timer is armed with the rewrite; (E6.nbit-negotiated) the N bit needs local configuration and the peer's flag; " +
-			"(E6.peerdown-resets) every family's End-of-RIB flag is cleared on session loss; (E6.stale-purge) DropStale only under receivedAllEOR(), LLGR_STALE routes become withdrawals for non-LLGR peers; (E7) the first stage of the decision process is the LLGR-stale one.",
+			"(E6.peerdown-resets) every family's End-of-RIB flag is cleared on session loss; (E6.stale-purge) DropStale only under receivedAllEOR(), LLGR_STALE routes become withdrawals for non-LLGR peers; (E7) the first stage of the decision process is the LLGR-stale one. Also: (E6.adj-in-stores-latest) a re-announcement always replaces the stored (possibly stale) entry; (E6.restart-flag-cleared) the end of a restart clears the long-lived flag on every path.",
 		Not: "Instants and orders of timers, reconnections and End-of-RIB arrival — i.e. that stale routes live exactly as long as the RFCs allow over all histories — are not decided.",
 		Run: func(c *Ctx) {
 			c.ruleGracefulReasons()
